@@ -764,18 +764,13 @@ fn module_tree(heap: &Heap, m: &Module<()>) -> Vec<N> {
       }
       Toplevel::Class(c) => {
         let mut kids = vec![id_node(heap, &c.name)];
-        // parse_class widens the type definition's location to start at the type parameter list
-        // (`class Box<T>(val v: T)`: the definition is `<T>(val v: T)`), so the type parameters
-        // are visited as the first child of the type definition when there is one.
-        match (&c.type_parameters, &c.type_definition) {
-          (Some(tp), Some(td)) => {
-            let mut tdn = typedef(heap, td);
-            tdn.kids.insert(0, tparams(heap, tp));
-            kids.push(tdn);
-          }
-          (Some(tp), None) => kids.push(tparams(heap, tp)),
-          (None, Some(td)) => kids.push(typedef(heap, td)),
-          (None, None) => {}
+        // type parameters and type definition are siblings (since 6471891 the definition's location no longer
+        // starts at the `<` of the type parameter list)
+        if let Some(tp) = &c.type_parameters {
+          kids.push(tparams(heap, tp));
+        }
+        if let Some(td) = &c.type_definition {
+          kids.push(typedef(heap, td));
         }
         if let Some(e) = &c.extends_or_implements_nodes {
           kids.push(extends(heap, e));
